@@ -53,6 +53,13 @@ func c18worker(arg string) {
 				c18before(c, n, calls)
 			}
 		}
+		for n1 := 1; n1 <= 3; n1++ {
+			for n2 := -1; n2 <= 4; n2++ {
+				for calls := 0; calls <= 6; calls++ {
+					c18beforeRounds(c, n1, n2, calls)
+				}
+			}
+		}
 	case "once":
 		for calls := 1; calls <= 5; calls++ {
 			c18once(c, calls, false)
@@ -199,7 +206,7 @@ func c18once(c *c20ctx, calls int, expiring bool) {
 
 func c18retry(c *c20ctx, n int, withDelay bool) {
 	var pattern []bool // outcome of each callback invocation (true = success)
-	var times []int64
+	var times, ends []int64
 	var gotAttempts int
 	var gotErr error
 	var errs []error
@@ -210,12 +217,17 @@ func c18retry(c *c20ctx, n int, withDelay bool) {
 	const d = 3
 	name := fmt.Sprintf("%s(n=%d)", fn, n)
 	c.explore(name, 0, func() {
-		pattern, times, errs = pattern[:0], times[:0], errs[:0]
+		pattern, times, ends, errs = pattern[:0], times[:0], ends[:0], errs[:0]
 		cb := func() error {
 			if len(pattern) > 12 {
 				panic("callback invoked more than 12 times")
 			}
 			times = append(times, now())
+			if withDelay && n <= 4 {
+				// the attempt itself takes 0, 1 or 4 units (delay = 3): every pattern of durations
+				vrt.Advance(time.Duration([]int{0, 1, 4}[vrt.Choose(3)]) * unit)
+			}
+			ends = append(ends, now())
 			ok := vrt.Choose(2) == 1
 			pattern = append(pattern, ok)
 			if ok {
@@ -267,11 +279,56 @@ func c18retry(c *c20ctx, n int, withDelay bool) {
 		}
 		if withDelay {
 			for i := 1; i < len(times); i++ {
-				if times[i]-times[i-1] < d {
-					return fn + "/attempts-closer-than-delay", fmt.Sprintf("attempts at times %v with delay %d", times, d)
+				if times[i]-ends[i-1] < d {
+					return fn + "/attempts-closer-than-delay", fmt.Sprintf("attempts started at %v and ended at %v: attempt %d began %d after the previous one ended, want a wait of at least %d", times, ends, i+1, times[i]-ends[i-1], d)
 				}
 			}
 		}
 		return "", ""
-	}, func() any { return fmt.Sprint(pattern, gotAttempts, gotErr != nil, times) })
+	}, func() any { return fmt.Sprint(pattern, gotAttempts, gotErr != nil, times, ends) })
+}
+
+// c18beforeRounds: the same cache serves two consecutive uses of Before (the counter is re-armed):
+// round 1 with n1 and n1+1 calls, round 2 with n2 and `calls` calls. In each round the callback runs
+// on each of the first n calls and never again; every call returns the result of the most recent run.
+func c18beforeRounds(c *c20ctx, n1, n2, calls int) {
+	var runOn, got []int
+	var round []int
+	name := fmt.Sprintf("Before twice on one cache (n=%d with %d calls, then n=%d with %d calls)", n1, n1+1, n2, calls)
+	c.explore(name, 0, func() {
+		runOn, got, round = runOn[:0], got[:0], round[:0]
+		ca := cache.New[string, int](cache.DefaultExpiration, cache.NoExpiration)
+		inv := 0
+		for r, cfg := range [][2]int{{n1, n1 + 1}, {n2, calls}} {
+			nn := cfg[0]
+			for i := 0; i < cfg[1]; i++ {
+				ran := 0
+				g := gogu.Before(&nn, ca, func() int { inv++; ran = inv; return 100 + inv })
+				runOn, got, round = append(runOn, ran), append(got, g), append(round, r+1)
+			}
+		}
+	}, func(x *vrt.Exec) (string, string) {
+		last := 0
+		idx := 0
+		for r, cfg := range [][2]int{{n1, n1 + 1}, {n2, calls}} {
+			for i := 0; i < cfg[1]; i++ {
+				wantRun := i+1 <= cfg[0]
+				if (runOn[idx] != 0) != wantRun {
+					cls := "runs-after-n-calls"
+					if wantRun {
+						cls = "does-not-run-within-first-n-calls"
+					}
+					return "Before/reused-cache/" + cls, fmt.Sprintf("round %d (n=%d): on call %d the callback ran=%t, want %t", r+1, cfg[0], i+1, runOn[idx] != 0, wantRun)
+				}
+				if wantRun {
+					last = 100 + runOn[idx]
+				}
+				if got[idx] != last {
+					return "Before/reused-cache/wrong-result", fmt.Sprintf("round %d (n=%d): call %d returned %d, want %d (the result of the most recent run)", r+1, cfg[0], i+1, got[idx], last)
+				}
+				idx++
+			}
+		}
+		return "", ""
+	}, func() any { return fmt.Sprint(round, runOn, got) })
 }
